@@ -305,7 +305,7 @@ def _child_main(n):
         from .. import xfeat as X
         xprogs = []
         for first in X.FIRST:
-            xprogs += X.enumerate_from(first, 2, X.NEXT_OPS[:43])
+            xprogs += X.enumerate_from(first, 2, X.NEXT_OPS[:44])
         out["xfeat_programs"] = len(xprogs)
         for prog in xprogs:
             vecs = X.vectors(prog)
